@@ -20,8 +20,9 @@ type CallSite struct {
 }
 
 type fnSummary struct {
-	calls []CallSite
-	refs  []*types.Func // functions used as values (not in call position)
+	calls  []CallSite
+	refs   []*types.Func // functions used as values (not in call position)
+	refPos []token.Pos
 }
 
 var summaries = map[*ast.FuncDecl]*fnSummary{}
@@ -61,6 +62,7 @@ func (c *Ctx) summary(d *ast.FuncDecl) *fnSummary {
 			if !callFun[x] {
 				if fn, ok := info.Uses[x].(*types.Func); ok {
 					s.refs = append(s.refs, fn)
+					s.refPos = append(s.refPos, x.Pos())
 				}
 			}
 		}
@@ -94,6 +96,14 @@ func (c *Ctx) Succ(f *types.Func) []*types.Func {
 		if !seen[r.Origin()] {
 			seen[r.Origin()] = true
 			out = append(out, r.Origin())
+		}
+	}
+	if c.Tier == "thorough" {
+		for _, r := range c.dynamicSucc()[f.Origin()] {
+			if !seen[r] {
+				seen[r] = true
+				out = append(out, r)
+			}
 		}
 	}
 	return out
